@@ -54,12 +54,12 @@ CHECKS: dict[str, dict] = {
     "C03": dict(
         cat="model_checking", ref="DESIGN.md §3 C03", engine="E1 world + E3 vblock + E2 vloop + E5 canon",
         technique="explicit-state exploration of the real blocking endpoint/client on a fake socket (every chunking x every close offset x every call history, states merged on delivered bytes, calls, results and canonical receiver heap) against a list reference model; async endpoint/client by schedule enumeration",
-        text="For every stream up to 3 packets (+ partial trailing frame), every byte offset of the peer's close, every chunking and every history of recv_packet / iter_received_packets calls with timeouts in {None, >0, 0}: each complete packet exactly once in order, end-of-stream only after all of them, never a partial frame, and end-of-stream is sticky without blocking.",
+        text="For every stream up to 3 packets (+ partial trailing frame), every byte offset of the peer's close, every chunking and every history of recv_packet / iter_received_packets calls with timeouts in {None, >0, 0}: each complete packet exactly once in order, end-of-stream only after all of them, never a partial frame, and end-of-stream is sticky without blocking. Packets whose value is None / 0 / False are delivered like any other (also when served from the buffer).",
     ),
     "C11": dict(
         cat="exploration", ref="DESIGN.md §3 C11, §2 E3", engine="E1 world + E3 vblock (+E2 for the async iterator, E4 vthreads for lock contention, E7 tlsrig for the real TLS transport)",
         technique="complete enumeration of arrival schedules (cuts x delay tuples) x timeouts x retry intervals on a virtual clock, spurious readiness as bounded deviations; oracle = exact virtual elapsed time against the reference 'return at A iff A < T else TimeoutError at T'",
-        text="For every enumerated arrival schedule the blocking call returns the packet at the instant its last byte arrived iff that is before the deadline, else raises TimeoutError exactly T after it started (never earlier, never later), T=0 never waits, iterators share one budget across packets. Ties with the deadline are excluded and counted. One known finding (TLS-like short reads with T=0) is keyed separately.",
+        text="For every enumerated arrival schedule the blocking call returns the packet at the instant its last byte arrived iff that is before the deadline, else raises TimeoutError exactly T after it started (never earlier, never later), T=0 never waits, iterators share one budget across packets. Ties with the deadline are excluded and counted. One known finding (TLS-like short reads with T=0) is keyed separately. Blocking send paths keep the budget across partial writes and retry-interval wake-ups (a wait ended early by readiness is still deducted).",
     ),
     "C05": dict(
         cat="model_checking", ref="DESIGN.md §3 C05", engine="zoo + E1/E2/E3",
@@ -84,7 +84,7 @@ CHECKS: dict[str, dict] = {
     "C09": dict(
         cat="fault_enumeration", ref="DESIGN.md §3 C09, §2 E7", engine="E7 tlsrig",
         technique="fault enumeration: raw EOF injected at every byte offset (thorough) / every structural offset (quick) of the peer-to-library ciphertext stream of a fixed session, x standard_compatible x TLS 1.2/1.3 x client/server x async (in-memory leaf, real asyncio adapter) and blocking transports, plus cuts of the peer's answer to our close_notify",
-        text="In standard-compatible mode a cut before the end of the peer's close_notify is never reported as a clean end-of-stream (transport and endpoint level), plaintext of fully delivered records is still readable first, a cut inside the handshake makes wrap() raise with the wrapped transport closed; without standard-compatible mode an abrupt end is end-of-stream; closing sends close_notify. The real TCPNetworkClient / AsyncTCPNetworkClient with ssl=True (their own default context, also when create_default_context() returns it with OP_IGNORE_UNEXPECTED_EOF set) carry the TLS error in the exception chain of the ConnectionAbortedError for every truncation and none for a clean close.",
+        text="In standard-compatible mode a cut before the end of the peer's close_notify is never reported as a clean end-of-stream (transport and endpoint level), plaintext of fully delivered records is still readable first, a cut inside the handshake makes wrap() raise with the wrapped transport closed; without standard-compatible mode an abrupt end is end-of-stream; closing sends close_notify. The real TCPNetworkClient / AsyncTCPNetworkClient with ssl=True (their own default context, also when create_default_context() returns it with OP_IGNORE_UNEXPECTED_EOF set) carry the TLS error in the exception chain of the ConnectionAbortedError for every truncation and none for a clean close. With a reader parked in recv() while another task closes the transport: the reader reports a clean end-of-stream only if the peer answered with close_notify, and a close that returns has sent the library's close_notify.",
     ),
     "C15": dict(
         cat="exploration", ref="DESIGN.md §3 C15", engine="mc/srvrig.py on E2 vloop",
@@ -94,7 +94,7 @@ CHECKS: dict[str, dict] = {
     "C16": dict(
         cat="exploration", ref="DESIGN.md §3 C16", engine="mc/srvrig.py on E2 vloop",
         technique="stateless schedule enumeration of the real AsyncUDPNetworkServer / AsyncDatagramServer on a fake datagram socket against a per-address FIFO single-server reference: every arrival sequence over two addresses, free placement at loop-iteration boundaries, enumerated handler shapes",
-        text="Per address datagrams are handled exactly once in arrival order, at most one handler generator is alive per address, everything queued is eventually handled (by the running or a fresh generator), a slow handler of one address does not delay the other, for all explored interleavings within the stated bounds.",
+        text="Per address datagrams are handled exactly once in arrival order, at most one handler generator is alive per address, everything queued is eventually handled (by the running or a fresh generator), a slow handler of one address does not delay the other, for all explored interleavings within the stated bounds. Queued datagrams survive a handler generator that ends with CancelledError, and datagrams read before serve() is awaited are all delivered in order.",
     ),
     "C17": dict(
         cat="fault_enumeration", ref="DESIGN.md §3 C17", engine="mc/srvrig.py on E2 vloop",
@@ -109,7 +109,7 @@ CHECKS: dict[str, dict] = {
     "C18": dict(
         cat="exploration", ref="DESIGN.md §3 C18, §2 E4", engine="E2 vloop (async servers) + E4 vthreads (standalone servers)",
         technique="stateless enumeration of lifecycle call sequences: async servers with every call started at every loop-iteration boundary (complete for sequences of <= 4 calls, thorough 5); standalone servers as real threads under a baton scheduler with preemption-bounded schedules (bound 2, thorough 3) over all synchronisation points; oracle = reference lifecycle state machine",
-        text="For all explored orders and interleavings of serve_forever / shutdown / server_close / client activity: shutdown returns only when no serve is in progress and never blocks forever, a stopped server can serve again unless closed, a closed server refuses with ServerClosedError, an overlapping serve_forever is refused with ServerAlreadyRunning, listeners are closed after server_close, nothing deadlocks. One transient known finding (standalone server_close during portal exit) is keyed separately.",
+        text="For all explored orders and interleavings of serve_forever / shutdown / server_close / client activity: shutdown returns only when no serve is in progress and never blocks forever, a stopped server can serve again unless closed, a closed server refuses with ServerClosedError, an overlapping serve_forever is refused with ServerAlreadyRunning, listeners are closed after server_close, nothing deadlocks. One transient known finding (standalone server_close during portal exit) is keyed separately. Threads: a serve_forever() that had passed its state checks before shutdown() was called does not come up after that shutdown() returned.",
     ),
 }
 
